@@ -60,6 +60,45 @@ class P1Path:
         return " & ".join(t)
 
 
+def _ascii_only(tree):
+    """every atom of the parsed pattern can only match octets < 0x80 (no negated class, no dot, no category that bytes patterns extend beyond ASCII)"""
+    for op, av in tree:
+        o = str(op)
+        if o == "LITERAL":
+            if av >= 0x80:
+                return False
+        elif o in ("NOT_LITERAL", "ANY"):
+            return False
+        elif o == "IN":
+            for o2, a2 in av:
+                s2 = str(o2)
+                if s2 == "NEGATE":
+                    return False
+                if s2 == "LITERAL" and a2 >= 0x80:
+                    return False
+                if s2 == "RANGE" and a2[1] >= 0x80:
+                    return False
+                if s2 == "CATEGORY" and "NOT" in str(a2):
+                    return False
+        elif o == "CATEGORY":
+            if "NOT" in str(av):
+                return False
+        elif o in ("MAX_REPEAT", "MIN_REPEAT", "POSSESSIVE_REPEAT"):
+            if not _ascii_only(av[2]):
+                return False
+        elif o == "SUBPATTERN":
+            if not _ascii_only(av[3]):
+                return False
+        elif o == "BRANCH":
+            if not all(_ascii_only(b) for b in av[1]):
+                return False
+        elif o == "AT":
+            pass
+        else:
+            return False
+    return True
+
+
 class P1Model:
     _CACHE = {}
 
@@ -201,6 +240,48 @@ class P1Model:
             return "Id", pol
         return None
 
+    def _id_implies(self, g):
+        """literals implied by a successful identification match `g` (see _classify)"""
+        memo = self.__dict__.setdefault("_id_imp_memo", {})
+        key = repr(g)
+        if key in memo:
+            return memo[key]
+        out = set()
+        try:
+            from sa.abseval import AbsEval
+            from sa.consteval import ConstEval
+            pats = []
+            A = AbsEval(self.M)
+
+            def walk(sv):
+                if isinstance(sv, tuple):
+                    if sv and sv[0] == "call" and sv[1] in (".match", ".fullmatch") and sv[2] and isinstance(sv[2][0], tuple) and sv[2][0][0] == "g":
+                        v = A.module_env("dlde").get(sv[2][0][1])
+                        pt = A.regex_of(v, "dlde") if v is not None else None
+                        if pt is not None:
+                            pats.append((pt, self.is_line(sv[2][1]) if len(sv[2]) > 1 else False))
+                    for x in sv:
+                        walk(x)
+            walk(g)
+            if not pats and self.mentions(g, lambda s_: s_[0] == "call" and isinstance(s_[1], str) and s_[1].endswith("is_ident_line")):
+                from sa.decoders import ident_pattern
+                pm = ident_pattern(self.M, ConstEval(self.M), "dlde")
+                if pm is not None and pm[1] in ("match", "fullmatch"):
+                    pats.append((pm[0], False))
+            for pt, on_raw_line in pats:
+                text = pt.decode("latin-1") if isinstance(pt, bytes) else pt
+                import re._parser as _rp
+                tree = _rp.parse(text)
+                items = [x for x in tree if str(x[0]) != "AT"]
+                if items and str(items[0][0]) == "LITERAL" and items[0][1] == SLASH:
+                    out.add("Sl")
+                if isinstance(pt, bytes) and on_raw_line and _ascii_only(tree):
+                    out.add("As")
+        except Exception:  # noqa - nothing implied
+            out = set()
+        memo[key] = out
+        return out
+
     def _len_terms(self, a):
         """a = len(buffer)#v [+ len(lines)] -> list of ('buffer', ver) / ('lines',) ; else None"""
         out = []
@@ -235,6 +316,13 @@ class P1Model:
                 if n in pp.lits and pp.lits[n] != v:
                     return None
                 pp.lits[n] = v
+                if n == "Id" and v is True:
+                    # what a successful match of the identification pattern implies about the line: its first octet (the pattern begins with '/'), and - for a
+                    # bytes pattern made of ASCII atoms only, applied to the raw line - that the line is ASCII
+                    for n2 in self._id_implies(g):
+                        if pp.lits.get(n2) is False:
+                            return None
+                        pp.lits.setdefault(n2, True)
         post = pp.post
         post.returns = p.status == "return"
         if p.status not in ("run", "return", "continue", "break"):
